@@ -77,6 +77,10 @@ public:
 	template <typename T>
 	bool operator==(const T& value) const noexcept
 	{
+		// The passed key can be a reference to the stored key itself (when keys are enumerated), this also covers NaN which is not equal to itself
+		if (static_cast<const void*>(&value) == mLast) {
+			return true;
+		}
 		if constexpr (std::is_integral_v<T> && (std::is_unsigned_v<T> || std::is_signed_v<T>))
 		{
 			if (auto& refUnsigned = std::get<uint64_t>(mTuple); mLast == &refUnsigned) {
